@@ -35,6 +35,9 @@ func genMulti(t *rapid.T) duo.Case {
 			r.ReqPauseAt = rapid.IntRange(1, 3).Draw(t, "qp")
 		case 1:
 			r.RespGateAt = rapid.IntRange(1, 3).Draw(t, "sg")
+		case 2:
+			// the traversal is held inside its block hook (a slow consumer) with further blocks already received
+			r.ReqGateAt = rapid.IntRange(1, 3).Draw(t, "qg")
 		}
 		c.Reqs = append(c.Reqs, r)
 	}
@@ -43,7 +46,7 @@ func genMulti(t *rapid.T) duo.Case {
 	}
 	m := rapid.IntRange(2, 24).Draw(t, "nops")
 	for j := 0; j < m; j++ {
-		k := rapid.SampledFrom([]string{"deliver", "deliver", "deliver", "intrude", "intrude", "qpause", "qunpause", "sgate", "tick"}).Draw(t, "opk")
+		k := rapid.SampledFrom([]string{"deliver", "deliver", "deliver", "intrude", "intrude", "qpause", "qunpause", "sgate", "qgate", "tick"}).Draw(t, "opk")
 		op := duo.Op{K: k}
 		switch k {
 		case "deliver":
@@ -124,6 +127,9 @@ func judgeMulti(c duo.Case) *pbt.Verdict {
 	_ = third
 	if n := got.BlockHookPeers[third]; n > 0 {
 		return v.Failf("the requestor's block hook was invoked %d times with the third peer as sender", n)
+	}
+	if n := got.BlockHookSawThird; n > 0 {
+		return v.Failf("the requestor's block hook was handed response data that the third peer sent (%d calls)", n)
 	}
 	if got.SentToThirdLive > 0 {
 		return v.Failf("the requestor sent %d message(s) to the third peer in reaction to its message for a request in progress", got.SentToThirdLive)
